@@ -6,6 +6,7 @@ import importlib.util
 import inspect
 import math
 import operator
+import os
 import socket
 import sys
 import warnings
@@ -40,10 +41,17 @@ def load(path: Path, *, cache: bool = False) -> Any:
 
 
 def dump(obj: Any, path: Path) -> None:
-    """Dump an object to a path using cloudpickle."""
+    """Dump an object to a path using cloudpickle.
+
+    The object is written to a temporary file in the same folder which is then
+    moved over ``path``, such that ``path`` never contains a partially written object
+    (e.g., when the process is killed while writing).
+    """
     path.parent.mkdir(parents=True, exist_ok=True)
-    with path.open("wb") as f:
+    tmp_path = path.with_name(f"{path.name}.{os.getpid()}.tmp")
+    with tmp_path.open("wb") as f:
         cloudpickle.dump(obj, f)
+    os.replace(tmp_path, path)
 
 
 def _get_cache_key(path: Path) -> tuple:
